@@ -20,6 +20,8 @@ use std::collections::BTreeSet;
 pub enum SOp {
     /// node loads the original artefact (bytes or hex)
     LoadOriginal { node: u8, hex: bool },
+    /// node builds its byte-preserving copy from the three raw parts of the original (hardware-signer style)
+    LoadFromParts { node: u8 },
     /// node loads what another node currently serializes (a forwarded message)
     Forward { from: u8, to: u8, hex: bool },
     SignVkey { node: u8, key: u8, via_helper: bool },
@@ -137,7 +139,14 @@ fn gen(seed: u64, tier: Tier) -> Case {
         let node = r.below(NODES as u64) as u8;
         let key = r.below(6) as u8;
         ops.push(match r.below(14) {
-            0 | 1 => SOp::LoadOriginal { node, hex: r.chance(1, 2) },
+            0 => SOp::LoadOriginal { node, hex: r.chance(1, 2) },
+            1 => {
+                if r.chance(1, 2) {
+                    SOp::LoadFromParts { node }
+                } else {
+                    SOp::LoadOriginal { node, hex: r.chance(1, 2) }
+                }
+            }
             2 | 3 => SOp::Forward { from: r.below(NODES as u64) as u8, to: node, hex: r.chance(1, 2) },
             4..=7 => SOp::SignVkey { node, key, via_helper: r.chance(1, 2) },
             8 | 9 => SOp::SignIcarus { node, key, via_helper: r.chance(1, 2) },
@@ -419,6 +428,24 @@ fn execute(c: &Case) -> Outcome {
                 }
                 Err(_) => out.count("c04.artefact_rejected_by_decoder", 1),
             },
+            SOp::LoadFromParts { node } => {
+                let parts = TxView::parse(&original).ok().map(|v| (v.span(v.body()).to_vec(), v.span(v.ws()).to_vec(), if v.aux().is_null() { None } else { Some(v.span(v.aux()).to_vec()) }));
+                if let Some((b, w, a)) = parts {
+                    let r = exec::guard(|| match &a {
+                        Some(a) => csl::FixedTransaction::new_with_auxiliary(&b, &w, a, f.is_valid),
+                        None => csl::FixedTransaction::new(&b, &w, f.is_valid),
+                    });
+                    match r {
+                        Ok(tx) => {
+                            out.count("c04.loaded_from_parts", 1);
+                            nodes[*node as usize] = Some(NodeState { tx, added_vkeys: BTreeSet::new(), added_boots: BTreeSet::new() });
+                            out.nontrivial = true;
+                        }
+                        Err(exec::Res::Panic(_)) => out.count("panics_observed", 1),
+                        Err(_) => out.count("c04.artefact_rejected_by_decoder", 1),
+                    }
+                }
+            }
             SOp::Forward { from, to, hex } => {
                 if let Some(src) = &nodes[*from as usize] {
                     let msg = src.tx.to_bytes();
@@ -533,6 +560,7 @@ fn execute(c: &Case) -> Outcome {
         }
         sig = mix(sig, match op {
             SOp::LoadOriginal { hex, .. } => 1 + *hex as u64,
+            SOp::LoadFromParts { .. } => 11,
             SOp::Forward { .. } => 3,
             SOp::SignVkey { via_helper, .. } => 4 + *via_helper as u64,
             SOp::SignIcarus { via_helper, .. } => 6 + *via_helper as u64,
